@@ -30,7 +30,6 @@ from unified_planning.model import ProblemKind, InterpretedFunction
 from unified_planning.plans import SequentialPlan, ActionInstance
 from spec import seqsem
 
-UNITS = []
 CAP = 20000
 
 
@@ -464,9 +463,144 @@ def replay_file(data):
     return {"reproduced": bool(failures), "concrete": c, "observed": [f["what"] for f in failures][:4]}
 
 
-LEVEL = "exploration"
+# ======================================================================================================= proved kernel
+# InterpretedFunctionsRemover._find_changing_fluents: the set of fluents that get an `unknown` tracker.  Soundness of the remover needs this
+# set to be CLOSED: every fluent written with a value that contains an interpreted function is in it, and so is every fluent written with a
+# value that reads a fluent of the set (otherwise a stale value survives in the compiled problem -- seeded C31-2).
+import z3
+from pyvc.values import Ref, Seq, Set, Tup, SBool, SRef, SSet, Rec, fresh_name, zint, zbool
+from pyvc.values import Int as PInt
+from pyvc.verify import Unit
+from pyvc.engine import LoopSpec
+from pyvc import builtins as B
+import unified_planning.engines.compilers.interpreted_functions_remover as _ifr
+
+ACT, EF, TM31, VAL, FE, FL31, PB31 = (Ref(n) for n in ("Action31", "Effect31", "Timing31", "Value31", "FluentExp31", "Fluent31", "Problem31"))
+EF.fields.update({"fluent": FE, "value": VAL})
+FE.observers["fluent"] = ((), FL31)
+PB31.fields["actions"] = Seq(ACT)
+HASIF = z3.Function("value_contains_interpreted_function", VAL.z3sort(), z3.BoolSort())
+QN31 = "unified_planning.engines.compilers.interpreted_functions_remover.InterpretedFunctionsRemover._find_changing_fluents"
+_fl_of = lambda z: B._uf("FluentExp31.fluent()", FE.z3sort(), FL31.z3sort())(z)          # noqa: E731
+_ef_fluent = lambda z: B._uf("Effect31.fluent", EF.z3sort(), FE.z3sort())(z)             # noqa: E731
+_ef_value = lambda z: B._uf("Effect31.value", EF.z3sort(), VAL.z3sort())(z)              # noqa: E731
+
+
+class FindChangingFluents(Unit):
+    prop = "C31"
+    name = "InterpretedFunctionsRemover._find_changing_fluents"
+    doc = ("for any number of actions, effects and read fluents: the returned set is closed -- it holds the fluent of every effect whose value "
+           "contains an interpreted function, and the fluent of every effect whose value reads a fluent of the set (fixpoint reached: the last "
+           "pass added nothing)")
+
+    def target(self):
+        return _ifr.InterpretedFunctionsRemover._find_changing_fluents
+
+    # effects of action a: sequence of (timing, effect); fluents read by a value: sequence of fluent expressions
+    def _effs(self, eng, st, a):
+        return B.uf_value(eng, st, "effects_of", [a.z], [ACT.z3sort()], Seq(Tup(TM31, EF)))
+
+    def _reads(self, eng, st, v):
+        return B.uf_value(eng, st, "fluents_read_by", [v], [VAL.z3sort()], Seq(FE))
+
+    def _trig(self, eng, st, ef, X):
+        """the effect must put its fluent into the set, given that X is (part of) the set"""
+        v = _ef_value(ef)
+        rd = self._reads(eng, st, v)
+        k = z3.Int(fresh_name("k"))
+        return z3.Or(HASIF(v), z3.Exists([k], z3.And(0 <= k, k < rd.n, z3.Select(X, _fl_of(z3.Select(rd.arr, k))))))
+
+    def _closed_upto(self, eng, st, acts, X, S, ai, ej=None):
+        """every effect of the actions before index ai (and, if ej is given, the effects before ej of action ai) that is triggered by X has its
+        fluent in S"""
+        i, j = z3.Int(fresh_name("i")), z3.Int(fresh_name("j"))
+
+        def eff(ii, jj):
+            es = self._effs(eng, st, ACT.wrap(z3.Select(acts.arr, ii)))
+            return es, es.te.wrap(z3.Select(es.arr, jj))[1].z
+        es_i, e_ij = eff(i, j)
+        body = z3.Implies(self._trig(eng, st, e_ij, X), z3.Select(S, _fl_of(_ef_fluent(e_ij))))
+        full = z3.ForAll([i, j], z3.Implies(z3.And(0 <= i, i < ai, 0 <= j, j < es_i.n), body))
+        if ej is None:
+            return full
+        es_a, e_aj = eff(ai, j)
+        part = z3.ForAll([j], z3.Implies(z3.And(0 <= j, j < ej), z3.Implies(self._trig(eng, st, e_aj, X), z3.Select(S, _fl_of(_ef_fluent(e_aj))))))
+        return z3.And(full, part)
+
+    def configure(self, eng):
+        unit = self
+        IFX, FVX = Ref("IFExtractor31"), Ref("FreeVarsExtractor31")
+        IFX.methods["get"] = lambda e, st, sv, a, k: iter([(st, SBool(HASIF(a[0].z)))])
+        FVX.methods["get"] = lambda e, st, sv, a, k: iter([(st, unit._reads(e, st, a[0].z))])
+        self._IFX, self._FVX = IFX, FVX
+        eng.contracts[_ifr.InterpretedFunctionsRemover._get_effects] = lambda e, st, a, k: iter([(st, unit._effs(e, st, a[1]))])
+        empty = z3.K(FL31.z3sort(), z3.BoolVal(False))
+
+        def has(L, name="found_fluents_set"):
+            c = getattr(L, name)
+            return c.has if isinstance(c, SSet) else empty
+
+        def subset(A, B_):
+            x = z3.Const(fresh_name("x"), FL31.z3sort())
+            return z3.ForAll([x], z3.Implies(z3.Select(A, x), z3.Select(B_, x)))
+
+        def w_inv(L):
+            S = has(L)
+            acts = unit._acts
+            return [("either another pass is due, or the set is closed under both rules",
+                     z3.Or(zint(L.len_end) > zint(L.len_start), unit._closed_upto(L._eng, L.st, acts, S, S, acts.n)))]
+
+        def a_inv(L):
+            S, S0 = has(L), has(L.head(0))
+            return [("the set only grows during a pass", subset(S0, S)),
+                    ("every effect of the actions handled in this pass that the set of the pass start triggers is in the set",
+                     unit._closed_upto(L._eng, L.st, unit._acts, S0, S, zint(L._i)))]
+
+        def e_inv(L):
+            S, S0 = has(L), has(L.head(0))
+            return [("the set only grows during a pass", subset(S0, S)),
+                    ("... including the effects of the current action handled so far",
+                     unit._closed_upto(L._eng, L.st, unit._acts, S0, S, zint(L._loop1_i), zint(L._i)))]
+
+        def r_inv(L):
+            S, S0 = has(L), has(L.head(0))
+            k = z3.Int(fresh_name("k"))
+            rd = L._seq
+            f = L.f
+            return [("the set only grows during a pass", subset(S0, S)),
+                    ("the effects handled before are covered", unit._closed_upto(L._eng, L.st, unit._acts, S0, S, zint(L._loop1_i), zint(L._loop2_i))),
+                    ("a read fluent seen so far that was in the set at the pass start has put the written fluent into the set",
+                     z3.ForAll([k], z3.Implies(z3.And(0 <= k, k < zint(L._i), z3.Select(S0, _fl_of(z3.Select(rd.arr, k)))), z3.Select(S, f.z))))]
+        mods = ["found_fluents_set", "a", "found_effects", "_", "ef", "f", "v", "ifs", "fs_e", "f_e"]
+        tys = {"found_fluents_set": Set(FL31), "a": ACT, "ef": EF, "f": FL31, "v": VAL, "_": TM31, "f_e": FE, "found_effects": Seq(Tup(TM31, EF)),
+               "fs_e": Seq(FE), "ifs": B.Bool}
+        eng.loops[(QN31, 0)] = LoopSpec(w_inv, modifies=mods + ["len_start", "len_end"], types=dict(tys, len_start=PInt, len_end=PInt))
+        eng.loops[(QN31, 1)] = LoopSpec(a_inv, modifies=mods, types=tys)
+        eng.loops[(QN31, 2)] = LoopSpec(e_inv, modifies=[m for m in mods if m not in ("a", "found_effects")], types=tys)
+        eng.loops[(QN31, 3)] = LoopSpec(r_inv, modifies=["found_fluents_set", "f_e"], types=tys)
+
+    def setup(self, eng, st):
+        pr = PB31.fresh("problem")
+        self._acts = B.field_uf(eng, st, pr, "actions")
+        w = st.alloc(Rec(_ifr.InterpretedFunctionsRemover, {"interpreted_functions_extractor": self._IFX.fresh("ifx"),
+                                                            "free_vars_extractor": self._FVX.fresh("fvx")}), "remover")
+        return [w, pr], {}, dict(pr=pr)
+
+    def post(self, eng, ctx, st, out):
+        if out[0] != "return":
+            return
+        r = eng.deref(st, out[1])
+        S = r.has if isinstance(r, SSet) else z3.K(FL31.z3sort(), z3.BoolVal(False))
+        st.oblige("the returned set is closed: interpreted-function writes and writes that read a member are members",
+                  self._closed_upto(eng, st, self._acts, S, S, self._acts.n))
+
+
+UNITS = [FindChangingFluents()]
+LEVEL = "other"
 EXPLANATION = __doc__
-TRUSTED = ["bounded only: the assume-guarantee argument (valid + complete underlying planner => valid / optimal meta result) is checked on samples, not proved",
+TRUSTED = ["P kernel: effects of an action, fluents read by a value and 'value contains an interpreted function' are uninterpreted (the extractors by contract); "
+           "finite-set lemma (subset with >= cardinality is equal) used as an axiom; what the remover DOES with the set (trackers, relaxed conditions) is bounded only",
+           "bounded: the assume-guarantee argument (valid + complete underlying planner => valid / optimal meta result) is checked on samples, not proved",
            "the harness's BFS planner is exact on the generated finite problems (it uses the real UPSequentialSimulator, bounded-checked in C01/C02)",
            "reference validity / reachability uses spec/seqsem.py with interpreted functions evaluated by calling them"]
 USES_THEORY = False
